@@ -193,6 +193,37 @@ def run_cases(res: Result, rng: random.Random, per_entry: int, n_raw: int, oracl
                                         "overwritable): " + "; ".join(problems)[:600], "line": "register()"})
     except Exception as ex:  # noqa
         oracle_fail.append({"what": f"register() raised {type(ex).__name__}: {ex}", "line": "register()"})
+    # Grouped AVPs built in place -- the documented idiom `grp.value.append(member)` on a new, member-less AVP --, several in
+    # a row (the list is assigned back to encode it), and member-less ones decoded in between: each carries exactly its own
+    # members (direct oracle: independent parser)
+    try:
+        from diameter.message.avp import avp as A3
+        import gen as G3
+        problems = []
+        for k in range(5):
+            g = A3.Avp.new(456, 0)
+            mine = [A3.Avp.new(432, 0, value=100 + k)] + ([A3.Avp.new(439, 0, value=k)] if k % 2 else [])
+            for m_ in mine:
+                g.value.append(m_)
+            g.value = g.value              # (the members are encoded into the payload when the list is assigned)
+            outer = G3.rfc_parse_avps(g.as_bytes())
+            inner = [(c, v, dt) for c, v, f, dt in G3.rfc_parse_avps(outer[0][3])]
+            want = [(m_.code, m_.vendor_id, m_.payload) for m_ in mine]
+            if inner != want:
+                problems.append(f"Grouped AVP #{k} built with value.append(): wire members {[(c, v) for c, v, _ in inner]} instead of "
+                                f"{[(c, v) for c, v, _ in want]}")
+            e = A3.Avp.from_bytes(G3.rfc_wire(456, 0, 0x40, b""))
+            if list(e.value) != []:
+                problems.append(f"a member-less Grouped AVP decodes with {len(e.value)} member(s)")
+            full = A3.Avp.from_bytes(G3.rfc_wire(456, 0, 0x40, G3.rfc_wire(432, 0, 0x40, (7).to_bytes(4, "big"))))
+            if [(x.code, x.payload) for x in full.value] != [(432, (7).to_bytes(4, "big"))]:
+                problems.append("a Grouped AVP decoded after in-place built ones does not return its own member")
+            res.count("grouped-in-place")
+        if problems:
+            oracle_fail.append({"what": "Grouped AVPs built or decoded one after the other share members: " + "; ".join(problems)[:500],
+                                "line": "Avp.new(456).value.append(...)"})
+    except Exception as ex:  # noqa
+        oracle_fail.append({"what": f"building a Grouped AVP in place raised {type(ex).__name__}: {ex}", "line": "Avp.new(456).value.append(...)"})
     for s in d.lines[:3] + d.lines[len(d.lines) // 2: len(d.lines) // 2 + 2]:
         res.sample({"line": s[:300]})
     return d
